@@ -85,7 +85,8 @@ CAMPAIGNS = {
                   ex(ph(HIST, True, pick=40), ph(HIST, pick=6), ph(["filter"], True, "r", 12)),
                   ex(ph(HIST), ph(HIST, pick=6), ph(HIST, pick=3), ph(["filter"], True, "r", 6))]),
     "empty_head_after_history": model_campaign(
-        "empty_head_after_history",
+        # scale_tiny: values in the subnormal range (a vector whose squares or products underflow is not empty)
+        "empty_head_after_history", palettes=MOVE + [["plain", "scale_tiny"], ["unicode", "scale_tiny"]],
         quick=[ex(ph(["remove_empty", "head", "align_df"], True, "r")),
                ex(ph(HIST), ph(["remove_empty", "head", "align_df"], True, "r", 8)),
                ex(ph(HIST), ph(HIST, pick=4), ph(["remove_empty", "head", "align_df"], True, "r", 3))],
@@ -158,8 +159,12 @@ CAMPAIGNS.update({
     "no_showthrough": model_campaign(
         "no_showthrough", palettes=IDONLY,
         quick=[ex(ph(NEWTABLE_OPS + INPLACE_OPS, False, "r"), ph(INPLACE_OPS, False, "same", 8, "r")),
-               ex(ph(LAYOUT, pick=6), ph(NEWTABLE_OPS + INPLACE_OPS, False, "r", 8), ph(INPLACE_OPS, False, "same", 4, "r"))],
+               ex(ph(LAYOUT, pick=6), ph(NEWTABLE_OPS + INPLACE_OPS, False, "r", 8), ph(INPLACE_OPS, False, "same", 4, "r")),
+               # a value transform along an axis leaves the receiver in that axis' layout (CSC after the sample axis):
+               # the next not-in-place value operation must still work on a copy
+               ex(ph(["transform"], False, "same"), ph(XFORM, False, "r"))],
         thorough=[ex(ph(NEWTABLE_OPS + INPLACE_OPS, True, "r", 60), ph(INPLACE_OPS, False, "same", 0, "r")),
+                  ex(ph(XFORM + ["filter"], False, "same"), ph(XFORM + ["filter", "remove_empty", "update_ids"], False, "r")),
                   ex(ph(LAYOUT), ph(NEWTABLE_OPS + INPLACE_OPS, False, "r"), ph(INPLACE_OPS, False, "same", 10, "r"))]),
     "newtable_frame": model_campaign(
         "newtable_frame", palettes=IDONLY, heaps="pairs",
